@@ -9,6 +9,8 @@ package linkedlist
 //@ type List: ghost $at (Array Int Int)
 //@ type List: ghost $pos (Array Int Int)
 //@ type List: ghost $in (Array Int Bool)
+//@ type List: guarded_by mx: len
+//@ type Node: guarded_by any linkedlist.List.mx: next, prev
 //@ assumption: a node belongs to at most one list, and a node outside every list has both links nil (NewNode creates it so; Remove/Pop* leave it so)
 
 //@ func NewNode
